@@ -40,6 +40,15 @@ pub struct WakeCase {
     /// second clause: pushes/extends (n items each) from this many threads
     pub push_threads: u8,
     pub push_batches: Vec<u8>,
+    /// keep the pattern empty (the run takes its early-return path)
+    #[serde(default)]
+    pub empty_pattern: bool,
+    /// a writer is held inside its fill callback while the first run scans, and released afterwards
+    #[serde(default)]
+    pub inflight_first: bool,
+    /// after everything has settled, tick once more (timeout 0) and judge that tick
+    #[serde(default)]
+    pub final_tick: bool,
 }
 
 struct Shared {
@@ -71,10 +80,19 @@ pub fn single_tick_plans() -> Vec<WakeCase> {
                             if at == 0 && advance_to != 0 {
                                 continue;
                             }
-                            v.push(WakeCase { threads: 1, items: 30, first_by_pattern, first_hold, ticks: vec![TickPlan { timeout, change_pattern, more_items: false, at, advance_to, hold_next: 2 }], push_threads: 1, push_batches: vec![1, 3] });
+                            v.push(WakeCase { threads: 1, items: 30, first_by_pattern, first_hold, ticks: vec![TickPlan { timeout, change_pattern, more_items: false, at, advance_to, hold_next: 2 }], push_threads: 1, push_batches: vec![1, 3], empty_pattern: false, inflight_first: false, final_tick: false });
                         }
                     }
                 }
+            }
+        }
+    }
+    // runs that only resolve an item first seen in flight, with empty and non-empty patterns
+    for empty_pattern in [true, false] {
+        for first_hold in 0..4u8 {
+            for threads in [1u8, 2] {
+                v.push(WakeCase { threads, items: 12, first_by_pattern: false, first_hold, ticks: vec![TickPlan { timeout: 0, change_pattern: false, more_items: false, at: 0, advance_to: 0, hold_next: 2 }], push_threads: 1, push_batches: vec![], empty_pattern, inflight_first: true, final_tick: true });
+                v.push(WakeCase { threads, items: 12, first_by_pattern: true, first_hold, ticks: vec![TickPlan { timeout: 1, change_pattern: false, more_items: true, at: 3, advance_to: 2, hold_next: 1 }], push_threads: 1, push_batches: vec![2], empty_pattern, inflight_first: false, final_tick: true });
             }
         }
     }
@@ -109,7 +127,9 @@ impl Check for C13 {
     }
     fn strategy(&self, _tier: Tier) -> BoxedStrategy<WakeCase> {
         let plan = (0u8..2, proptest::bool::weighted(0.3), proptest::bool::weighted(0.3), 0u8..4, 0u8..3, 0u8..4).prop_map(|(timeout, change_pattern, more_items, at, advance_to, hold_next)| TickPlan { timeout, change_pattern, more_items, at, advance_to, hold_next });
-        (1u8..=3, 1u16..200, any::<bool>(), 0u8..4, proptest::collection::vec(plan, 1..=3), 1u8..=3, proptest::collection::vec(1u8..40, 0..=4)).prop_map(|(threads, items, first_by_pattern, first_hold, ticks, push_threads, push_batches)| WakeCase { threads, items, first_by_pattern, first_hold, ticks, push_threads, push_batches }).boxed()
+        (1u8..=3, 1u16..200, any::<bool>(), 0u8..4, proptest::collection::vec(plan, 1..=3), 1u8..=3, proptest::collection::vec(1u8..40, 0..=4), (proptest::bool::weighted(0.3), proptest::bool::weighted(0.35), proptest::bool::weighted(0.5)))
+            .prop_map(|(threads, items, first_by_pattern, first_hold, ticks, push_threads, push_batches, (empty_pattern, inflight_first, final_tick))| WakeCase { threads, items, first_by_pattern, first_hold, ticks, push_threads, push_batches, empty_pattern, inflight_first, final_tick })
+            .boxed()
     }
     fn run(&self, c: &WakeCase) -> Outcome {
         let mut out = Outcome::default();
@@ -150,13 +170,35 @@ impl Check for C13 {
                 inj.push(id, |_, cols| cols[0] = Utf32String::from(if id % 3 == 0 { "ab" } else { "b" }));
             }
         };
-        let mut text = String::from("a");
+        let mut text = if c.empty_pattern { String::new() } else { String::from("a") };
         let mut ticks: Vec<(u64, u64, bool, bool)> = vec![]; // (begin seq, end seq, running, cancels earlier runs)
         let mut fail: Option<(String, String)> = None;
         let mut inconclusive = false;
 
         // ---- first run -------------------------------------------------------------------
         push_items(c.items.max(1), &mut next_id);
+        // optional writer held between reserving its index and publishing the item
+        let held_gate = Arc::new((std::sync::atomic::AtomicBool::new(false), std::sync::atomic::AtomicBool::new(false)));
+        let mut held_writer = None;
+        if c.inflight_first {
+            let inj2 = inj.clone();
+            let g = held_gate.clone();
+            held_writer = Some(std::thread::spawn(move || {
+                inj2.push(999_999, |_, cols| {
+                    cols[0] = Utf32String::from("ab");
+                    g.0.store(true, std::sync::atomic::Ordering::SeqCst);
+                    let t0 = std::time::Instant::now();
+                    while !g.1.load(std::sync::atomic::Ordering::SeqCst) && t0.elapsed() < std::time::Duration::from_secs(30) {
+                        std::thread::sleep(std::time::Duration::from_micros(200));
+                    }
+                });
+            }));
+            let t0 = std::time::Instant::now();
+            while !held_gate.0.load(std::sync::atomic::Ordering::SeqCst) && t0.elapsed() < std::time::Duration::from_secs(10) {
+                std::thread::sleep(std::time::Duration::from_micros(200));
+            }
+            out.label("item-in-flight-during-first-run");
+        }
         if c.first_by_pattern {
             // bring the matcher to a fresh idle state first, then spawn the run by a pattern change
             let _ = nuc.tick(50);
@@ -167,7 +209,7 @@ impl Check for C13 {
         }
         nuc.pattern.reparse(0, &text, CaseMatching::Smart, Normalization::Smart, false);
         gate::hold_run_at(HOLDS[c.first_hold as usize % 4]);
-        if !c.first_by_pattern {
+        if !c.first_by_pattern && !c.empty_pattern {
             // pattern changes always cancel: apply the pattern before any item was processed, then add
             // items so that the spawning tick is a plain "new items" tick
             let _ = nuc.tick(0);
@@ -186,6 +228,10 @@ impl Check for C13 {
             inconclusive = true;
         }
 
+        if let Some(h) = held_writer.take() {
+            held_gate.1.store(true, std::sync::atomic::Ordering::SeqCst);
+            let _ = h.join();
+        }
         // ---- subject ticks -----------------------------------------------------------------
         for p in &c.ticks {
             if inconclusive {
@@ -253,6 +299,23 @@ impl Check for C13 {
             inconclusive = true;
         }
         std::thread::sleep(std::time::Duration::from_micros(500));
+        if c.final_tick && !inconclusive && fail.is_none() {
+            let b = gate::log_event(hsite::TICK_BEGIN, 0);
+            match guarded(|| nuc.tick(0)) {
+                Ok(st) => {
+                    let e = gate::log_event(hsite::TICK_END, st.running as u64);
+                    ticks.push((b, e, st.running, false));
+                    if st.running {
+                        out.label("final-tick-running");
+                    }
+                }
+                Err(m) => fail = Some(("tick-panic".into(), m)),
+            }
+            if gate::wait_runs_idle() == Waited::Timeout {
+                inconclusive = true;
+            }
+            std::thread::sleep(std::time::Duration::from_micros(500));
+        }
         let log = gate::take_log();
 
         if !inconclusive && fail.is_none() {
